@@ -29,9 +29,9 @@
    Domain: documents whose root has only nodes as children [doc_ok]: every parsed text, every
    document built by the constructors, every live document (C04H_start).  Deb822 is not Clone, so
    there is one document handle (register 0); paragraph handles are unlimited. *)
-From V.model Require Import Base Deb822Lex Deb822Parse Grammar Lossy Deb822Edit LiveDoc Deb822Store Deb822Handles.
-From V.proofs Require Import Deb822EditP LiveDocP LiveParaP.
-From V.proofs Require Import Deb822StoreP Deb822StoreOpsP Deb822StoreParaP Deb822StoreDocP Deb822HandlesP.
+From V.model Require Import Base Deb822Lex Deb822Parse Grammar Lossy Deb822Edit LiveDoc LiveTree Deb822Store Deb822Handles.
+From V.proofs Require Import Deb822EditP LiveDocP LiveParaP LiveDocEvP LiveParaEvP.
+From V.proofs Require Import Deb822StoreP Deb822StoreOpsP Deb822StoreParaP Deb822StoreDocP Deb822HandlesP Deb822HandlesEvP.
 
 (* 1. One instruction.  R st a: register 0 holds the root of the tree of the document a_doc a (a doc_ok tree); the detached paragraphs a_dead a are trees of their own; every paragraph register holds the handle its abstract value denotes ((tree of the document, [slot of the n-th paragraph]) for Live n, the root of the j-th detached tree for Dead j).  Every instruction runs without panic and re-establishes R for hstep: (1) no panic, (2) the root tree is the pure model's, (3) every handle denotes the same paragraph node, at its shifted position, or the detached paragraph *)
 Theorem C04H_step : forall o st a, R st a ->
@@ -75,7 +75,7 @@ Check C04H_start : (forall s t n, from_str_relaxed s = Ok (t, n) -> doc_ok t) /\
   (forall t nregs, doc_ok t -> R (start_state t nregs) (astart t nregs)).
 Print Assumptions C04H_start.
 
-(* 3. (4) of the task: C05_history for histories through earlier handles: from any live document, when the arguments of the edits that reach the document are in the domain (ops_ok2 over the trace), the store's root tree is the live layout of the abstract history, reports the list-model content, and its text re-reads to the same non-empty paragraphs *)
+(* 3. (4) of the task: C05_history_exact for histories through earlier handles: from any live document, when the arguments of the edits that reach the document are in the domain (ops_ok2 over the trace), the store's root tree is the live layout of the abstract history, reports the list-model content, and its text re-reads to the same non-empty paragraphs *)
 Theorem C05_handles_history : forall prog d nregs, lwf d = true ->
   let a0 := astart (ltree_of d) nregs in
   let tr := htrace prog a0 in
@@ -99,7 +99,7 @@ Check C05_handles_history : forall prog d nregs, lwf d = true ->
     exists t'', from_str (text t') = Ok t'' /\ doc_items t'' = nonempty_paras (doc_items t').
 Print Assumptions C05_handles_history.
 
-(* and C04_history for programs that only edit fields (through any handles) *)
+(* and C04_history_exact for programs that only edit fields (through any handles) *)
 Theorem C04_handles_history : forall prog d nregs, lwf d = true -> forallb field_only prog = true ->
   let a0 := astart (ltree_of d) nregs in
   let tr := fops_of (htrace prog a0) in
@@ -122,6 +122,55 @@ Check C04_handles_history : forall prog d nregs, lwf d = true -> forallb field_o
     (forall k, reg_tree k st' = denotes (hsteps prog a0) k) /\
     exists t'', from_str (text t') = Ok t'' /\ doc_items t'' = nonempty_paras (doc_items t').
 Print Assumptions C04_handles_history.
+
+(* 3'. the same two in the full domain of C04 (4) (props/C04.v C04_history, props/C05.v
+   C05_history: every rename with a valid new name, whatever value the renamed field carries):
+   the store's root tree is the tree of the live layout up to empty VALUE tokens (live_tree). *)
+Theorem C05_handles_history_every : forall prog d nregs, lwf d = true ->
+  let a0 := astart (ltree_of d) nregs in
+  let tr := htrace prog a0 in
+  Forall op_dom2 tr ->
+  exists st' t', run_hops prog (start_state (ltree_of d) nregs) = Ok st' /\
+    root_tree st' = Ok t' /\
+    live_tree t' (fold_left astep2 tr d) /\ lwf (fold_left astep2 tr d) = true /\
+    doc_items t' = fold_left sstep2 tr (doc_items (ltree_of d)) /\
+    (forall k, reg_tree k st' = denotes (hsteps prog a0) k) /\
+    exists t'', from_str (text t') = Ok t'' /\ doc_items t'' = nonempty_paras (doc_items t').
+Proof. exact handles_C05_every. Qed.
+Check C05_handles_history_every : forall prog d nregs, lwf d = true ->
+  let a0 := astart (ltree_of d) nregs in
+  let tr := htrace prog a0 in
+  Forall op_dom2 tr ->
+  exists st' t', run_hops prog (start_state (ltree_of d) nregs) = Ok st' /\
+    root_tree st' = Ok t' /\
+    live_tree t' (fold_left astep2 tr d) /\ lwf (fold_left astep2 tr d) = true /\
+    doc_items t' = fold_left sstep2 tr (doc_items (ltree_of d)) /\
+    (forall k, reg_tree k st' = denotes (hsteps prog a0) k) /\
+    exists t'', from_str (text t') = Ok t'' /\ doc_items t'' = nonempty_paras (doc_items t').
+Print Assumptions C05_handles_history_every.
+
+Theorem C04_handles_history_every : forall prog d nregs, lwf d = true -> forallb field_only prog = true ->
+  let a0 := astart (ltree_of d) nregs in
+  let tr := fops_of (htrace prog a0) in
+  Forall op_dom tr ->
+  exists st' t', run_hops prog (start_state (ltree_of d) nregs) = Ok st' /\
+    root_tree st' = Ok t' /\
+    live_tree t' (fold_left astep tr d) /\ lwf (fold_left astep tr d) = true /\
+    doc_items t' = fold_left sstep tr (doc_items (ltree_of d)) /\
+    (forall k, reg_tree k st' = denotes (hsteps prog a0) k) /\
+    exists t'', from_str (text t') = Ok t'' /\ doc_items t'' = nonempty_paras (doc_items t').
+Proof. exact handles_C04_every. Qed.
+Check C04_handles_history_every : forall prog d nregs, lwf d = true -> forallb field_only prog = true ->
+  let a0 := astart (ltree_of d) nregs in
+  let tr := fops_of (htrace prog a0) in
+  Forall op_dom tr ->
+  exists st' t', run_hops prog (start_state (ltree_of d) nregs) = Ok st' /\
+    root_tree st' = Ok t' /\
+    live_tree t' (fold_left astep tr d) /\ lwf (fold_left astep tr d) = true /\
+    doc_items t' = fold_left sstep tr (doc_items (ltree_of d)) /\
+    (forall k, reg_tree k st' = denotes (hsteps prog a0) k) /\
+    exists t'', from_str (text t') = Ok t'' /\ doc_items t'' = nonempty_paras (doc_items t').
+Print Assumptions C04_handles_history_every.
 
 (* 4. The store level on ANY tree: Paragraph::set through a handle at any path p of any tree tid rewrites exactly the children of the node at p by Deb822Edit.para_set (visible through every other handle into that tree), leaves all other trees alone and moves no handle that is not strictly below that node (para_frame); the same for insert, remove, rename (Deb822StoreParaP.v) *)
 Theorem C04H_paragraph_set_store : forall ts rs r tid ri T p k cs key v,
@@ -198,6 +247,34 @@ Proof.
   cbv zeta. split; [vm_compute; reflexivity|]. split.
   { vm_compute htrace. cbn [ops_ok2 op_ok2 op_ok]. repeat split; try exact I; try (vm_compute; reflexivity).
     intros f Hf. match goal with H : nth_para _ _ = Some _ |- _ => vm_compute in H; inversion H; subst end. vm_compute in Hf. discriminate. }
+  split; [vm_compute; reflexivity|]. split; [vm_compute; reflexivity|].
+  eexists. split; [vm_compute; reflexivity|]. split; vm_compute; reflexivity.
+Qed.
+
+(* Non-vacuity of 3': fields without a value ("A:" LF, and "C: " as the unterminated last line)
+   renamed through handles taken before and after; renamed again through a second handle (the
+   entry then holds the empty VALUE token); the paragraph removed, and renamed once more through
+   the stale handles (Dead: seen through them only). *)
+Example C04H_ex_every :
+  let fa := mk_field [65]%N [] [] [] true in
+  let fb := mk_field [66]%N [32]%N [49]%N [] true in
+  let fc := mk_field [67]%N [32]%N [] [] false in
+  let d := lift [BPara fa [IField fb]; BBlank; BPara fc []] in
+  let prog := [HPara 0 0; HPara 1 1; HRename 0 [65]%N [69]%N; HPara 2 0; HRename 2 [69]%N [70]%N; HRemoveP 0; HRename 1 [67]%N [71]%N;
+               HSet 1 [72]%N [104]%N; HRename 0 [70]%N [73]%N] in
+  let a0 := astart (ltree_of d) 4 in
+  lwf d = true /\ Forall op_dom2 (htrace prog a0) /\
+  htrace prog a0 = [DF (ORename 0 [65]%N [69]%N); DF (ORename 0 [69]%N [70]%N); DRemove 0; DF (ORename 0 [67]%N [71]%N);
+                    DF (OSet 0 [72]%N [104]%N)] /\
+  a_regs (hsteps prog a0) = [Some (Dead 0); Some (Live 0); Some (Dead 0); None] /\
+  exists st', run_hops prog (start_state (ltree_of d) 4) = Ok st' /\
+    option_map text (match root_tree st' with Ok t => Some t | _ => None end)
+      = Some [71; 58; 32; 10; 72; 58; 32; 104; 10]%N /\
+    map (fun k => option_map items (reg_tree k st')) [0; 1; 2; 3]
+      = [Some [([73], []); ([66], [49])]; Some [([71], []); ([72], [104])]; Some [([73], []); ([66], [49])]; None]%N.
+Proof.
+  cbv zeta. split; [vm_compute; reflexivity|]. split.
+  { vm_compute htrace. repeat constructor; vm_compute; reflexivity. }
   split; [vm_compute; reflexivity|]. split; [vm_compute; reflexivity|].
   eexists. split; [vm_compute; reflexivity|]. split; vm_compute; reflexivity.
 Qed.
